@@ -283,6 +283,14 @@ func (r *runner) applyWrite(what string, vals map[string]any, self string, check
 	if checkUnique {
 		dup = r.conflicts(vals, self)
 	}
+	partialOmits := false
+	if i := strings.LastIndex(what, ") with "); strings.HasPrefix(what, "partial-document update") && i >= 0 {
+		for _, f := range r.indexedFieldNames() {
+			if !strings.Contains(what[i:], `"`+fdef(f).selName()+`":`) {
+				partialOmits = true
+			}
+		}
+	}
 	errA := guard(func() error { return do(nodeA) })
 	r.cl.Collect(nodeA)
 	trace("%s -> indexed twin: %v (model conflicts %v)", what, errA, dup)
@@ -295,6 +303,9 @@ func (r *runner) applyWrite(what string, vals map[string]any, self string, check
 		}
 		r.label("unique:rejected-as-expected")
 		return false, nil
+	}
+	if errA == nil && len(dup) > 0 && strings.HasPrefix(what, "partial-document update") && partialOmits {
+		return false, hx.Failf(sigPartialUpdate, "%s was accepted although unique index %v already holds the resulting tuple: the index sees only the fields the partial document carries", what, dup)
 	}
 	if errA == nil && len(dup) > 0 {
 		return false, hx.Failf("C07/unique/duplicate-accepted", "%s was accepted although unique index %v already holds that tuple on another live document; model docs: %s", what, dup, r.dumpModel())
@@ -385,6 +396,18 @@ func (r *runner) delete(node int, id string) error {
 	}
 	_, err = r.col(node).Delete(r.node(node).Ctx, did)
 	return err
+}
+
+func (r *runner) indexedFieldNames() []string {
+	var out []string
+	for i, ix := range r.c.Idx {
+		if r.exists[i] {
+			for _, f := range ix.Fields {
+				out = append(out, f.F)
+			}
+		}
+	}
+	return out
 }
 
 // omittedIndexedFields lists the fields of existing indexes that a patch does not carry.
